@@ -248,6 +248,10 @@ class Program:
         for r in TRANSPARENT_RE:
             if r.match(path) and args:
                 return args[0]
+        if path.endswith("::from_residual") and "result::Result" in path and "option::Option<" not in path.split("FromResidual")[0] and len(args) == 1:
+            # `r?` on an Err: the enclosing function's Result is an Err (built from the residual's payload)
+            from .an import mk_vfield
+            return ("adt", "core::result::Result::Err", (("0", mk_vfield(args[0], "core::result::Result::Err", 0)),))
         if path.endswith("::from_residual") and "option::Option" in path:
             # `o?` on None: the enclosing function's Option result is None
             return ("enum", "core::option::Option", "None")
